@@ -70,6 +70,25 @@ Add(m, id, meta, size) ==
     /\ used' = [used EXCEPT ![m] = @ \cup {id}]
     /\ UNCHANGED <<cap, limit>>
 
+(* The same in two grains, for concurrent use (C09 names the size enforcer  *)
+(* as one of the concurrent clients): the delivery itself (append + cap),   *)
+(* and the enforcer's evictions as steps of their own.                      *)
+AddBase(m, id, meta, size) ==
+    /\ id \notin used[m]
+    /\ LET appended == Append(boxes[m], NewMsg(id, meta, size))
+           dropped  == CapDropped(appended, cap)
+       IN  /\ boxes' = [boxes EXCEPT ![m] = CapSuffix(appended, cap)]
+           /\ arrival' = SelectSeq(Append(arrival, <<m, id>>),
+                             LAMBDA r : ~(r[1] = m /\ \E i \in DOMAIN dropped : dropped[i].id = r[2]))
+    /\ used' = [used EXCEPT ![m] = @ \cup {id}]
+    /\ UNCHANGED <<cap, limit>>
+EvictOne ==
+    /\ limit > 0 /\ Total(boxes) > limit /\ arrival # <<>>
+    /\ LET h == Head(arrival)
+       IN  /\ boxes' = [boxes EXCEPT ![h[1]] = WithoutId(@, h[2])]
+           /\ arrival' = Tail(arrival)
+    /\ UNCHANGED <<used, cap, limit>>
+
 MarkSeen(m, id) ==
     /\ IF Live(m, id)
        THEN boxes' = [boxes EXCEPT ![m][Pos(boxes[m], id)].seen = TRUE]
